@@ -62,8 +62,12 @@ def install():
     wrap_method(UnscentedKalmanFilter, "update", after=after_update, tag="sched-order")
 
 
-def observe(case: dict) -> dict:
-    """Run the case and condense the probe log into a comparable record."""
+def observe(case: dict, isolate: bool = False) -> dict:
+    """Run the case and condense the probe log into a comparable record.  ``isolate``: in a fresh fork (the probe log then stays in the child)."""
+    if isolate:
+        from ..core import fork_call
+
+        return fork_call(observe, case)
     ctx = drive(case)
     rec = {"error": None, "numerical": False, "steps": {}, "db": {}, "batches": [], "retries": 0}
     try:
